@@ -156,7 +156,7 @@ type Call struct {
 	Path      string `json:"path"`
 	InfoSize  int64  `json:"info_size"`
 	// Regular: the file information handed to Extract describes a regular file.
-	Regular bool `json:"regular,omitempty"`
+	Regular   bool   `json:"regular,omitempty"`
 	BytesRead int64  `json:"bytes_read"`
 	ReadErr   string `json:"read_err,omitempty"`
 	CtxErr    bool   `json:"ctx_err,omitempty"`
@@ -172,7 +172,9 @@ type Recorder struct {
 	Events    []string                     // interleaved event log: "extract:<ext>:<path>", "standalone:<name>", "detector:<name>", "inode:<path>"
 	OnExtract func(seq int, ext, p string) // optional hook run at the start of each Extract (C10 cancellation)
 	OnInode   func(n int, p string)
-	inodes    int
+	// OnRequired, when set, runs in every FileRequired invocation of the fake extractors (C16).
+	OnRequired func(ext, p string)
+	inodes     int
 }
 
 // Event appends to the interleaved log.
@@ -245,7 +247,11 @@ func (e *FSExtractor) FileRequired(api filesystem.FileAPI) bool {
 	p := api.Path()
 	e.Rec.mu.Lock()
 	e.Rec.Required = append(e.Rec.Required, e.Spec.Name+"|"+p)
+	onReq := e.Rec.OnRequired
 	e.Rec.mu.Unlock()
+	if onReq != nil {
+		onReq(e.Spec.Name, p)
+	}
 	return e.Spec.Pred.Matches(p, func() (uint32, bool) {
 		fi, err := api.Stat()
 		if err != nil || fi == nil {
